@@ -81,6 +81,38 @@ def valid_floats(bound):
                         yield "hexfloat:H.H", "0" + x + a + "." + b + e + s
 
 
+LONG_LENGTHS = (8, 16, 31, 32, 33, 40, 64, 100)
+
+
+def valid_long(seed):
+    """constants whose digit strings are long (the grammar puts no bound on them): every structural form x a ladder of lengths"""
+    import random
+    rnd = random.Random(seed)
+
+    def ds(alphabet, n, first=None):
+        return (rnd.choice(first) if first else rnd.choice(alphabet)) + "".join(rnd.choice(alphabet) for _ in range(n - 1))
+    for n in LONG_LENGTHS:
+        for sfx in ("", "u", "ULL"):
+            yield "long:int:dec", ds(DEC, n, "123456789") + sfx
+            yield "long:int:oct", "0" + ds(OCT, n) + sfx
+            yield "long:int:hex", "0x" + ds(HEX, n) + sfx
+            yield "long:int:bin", "0b" + ds("01", n) + sfx
+        for sfx in ("", "f", "L"):
+            for e in ("", "e5", "E-19", "e+100"):
+                yield "long:float:D.D", ds(DEC, n, "123456789") + "." + ds(DEC, 3) + e + sfx
+                yield "long:float:D.D", ds(DEC, 2, "123456789") + "." + ds(DEC, n) + e + sfx
+                yield "long:float:.D", "." + ds(DEC, n) + e + sfx
+                yield "long:float:D.", ds(DEC, n, "123456789") + "." + e + sfx
+                if e:
+                    yield "long:float:De", ds(DEC, n, "123456789") + e + sfx
+            yield "long:float:exp", "1.5e" + ds(DEC, min(n, 40), "123456789") + sfx
+        for sfx in ("", "f", "L"):
+            for e in ("p0", "P-12", "p+1023"):
+                yield "long:hexfloat", "0x" + ds(HEX, n) + e + sfx
+                yield "long:hexfloat", "0x1." + ds(HEX, n) + e + sfx
+                yield "long:hexfloat", "0x." + ds(HEX, n) + e + sfx
+
+
 def valid_chars(bound):
     plain = [chr(c) for c in range(32, 127) if chr(c) not in "'\\"]
     for pre in literals.CPREFIXES:
@@ -229,6 +261,8 @@ def run(pid, tier, seed):
     for gen in (valid_integers, valid_floats, valid_chars, valid_strings):
         for fam, text in gen(bound):
             items.append(("v", fam, text))
+    for fam, text in valid_long(int(seed)):
+        items.append(("v", fam, text))
     for fam, text, code, one in malformed(bound):
         items.append(("m", fam, text, code, one))
     seen = set()
@@ -251,4 +285,4 @@ def run(pid, tier, seed):
     missing = [f for f in fams if not (camp.counters.get("valid:" + f) or camp.counters.get("malformed:" + f.split(":")[0]))]
     if missing:
         raise core.HarnessError("families without any member: %s" % missing)
-    return core.finish(pid, tier, seed, camp, RULE, t0, replay_fn=replay, assumptions=["digit strings longer than the bound are not covered", "seed-independent: the enumeration is complete over the bound"])
+    return core.finish(pid, tier, seed, camp, RULE, t0, replay_fn=replay, assumptions=["beyond the bound, digit strings are sampled on a ladder of lengths (8..100) per structural form, digits drawn from the seed", "the enumeration below the bound is complete and seed-independent"])
